@@ -294,14 +294,17 @@ class Axis(GetSetDelAttrMixin, AbstractAxis):
         elif other.values.size == 0:
             return self
 
-        def _same_slope(a, b):
-            " both decreasing or both increasing "
-            return (a[-1]>=a[0])==(b[-1]>=b[0])
+        def _slope(a):
+            " True if increasing, False if decreasing, None if undetermined (single element) "
+            return None if a.size < 2 else bool(a[-1]>=a[0])
 
-        if consistent_kinds and self.is_monotonic() and other.is_monotonic() and _same_slope(self.values, other.values):
+        slope1, slope2 = _slope(self.values), _slope(other.values)
+        same_slope = slope1 is None or slope2 is None or slope1 == slope2
+
+        if consistent_kinds and self.is_monotonic() and other.is_monotonic() and same_slope:
             # join two sorted axes
             joined = np.union1d(self.values, other.values)
-            if self.values[-1] <= self.values[0]: # decreasing !
+            if (slope1 if slope1 is not None else slope2) is False: # decreasing !
                 joined = joined[::-1]
 
         else:
